@@ -449,6 +449,14 @@ class NamedTypes(object):
             except AttributeError:
                 tagSet = asn1Object.tagSet
 
+                if not tagSet:
+                    # an untagged CHOICE goes by the smallest tag of its alternatives
+                    try:
+                        tagSet = asn1Object.componentType.minTagSet
+
+                    except AttributeError:
+                        pass
+
             if minTagSet is None or tagSet < minTagSet:
                 minTagSet = tagSet
 
